@@ -126,6 +126,8 @@ pub struct BatchArgs {
     pub shrink_budget: usize,
     /// write the index of the run being started to this file (abort forensics), single-thread only
     pub progress_file: Option<String>,
+    /// print "RUN <index>" to stderr before each run (Miri forensics; stderr is unbuffered)
+    pub trace_runs: bool,
 }
 
 pub fn run_seed_of<S: Scenario>(s: &S, seed: u64, index: u64) -> u64 {
@@ -174,6 +176,9 @@ pub fn run_batch<S: Scenario>(s: &S, a: &BatchArgs) -> Value {
                         let index = a.start + k;
                         if let Some(p) = &a.progress_file {
                             let _ = std::fs::write(p, index.to_string());
+                        }
+                        if a.trace_runs {
+                            eprintln!("RUN {index}");
                         }
                         let mut rng = Rng::new(run_seed_of(s, a.seed, index));
                         let h = s.generate(&mut rng, index);
